@@ -17,6 +17,22 @@ ACS = "berty.tech/go-orbit-db/accesscontroller/simple"
 ACO = "berty.tech/go-orbit-db/accesscontroller/orbitdb"
 
 CHECKS = {
+    "C02": {
+        "groups": [{
+            "pkg": BS, "funcs": ["VerifC02Heal"],
+            "params": {"quick": {"STEPS": 4}, "thorough": {"STEPS": 6}},
+            "max_paths": {"quick": 60000, "thorough": 600000},
+            "timeout": {"quick": "10m", "thorough": "60m"},
+            "covers": {"VerifC02Heal": ["announcement-delivered", "announcement-lost", "restart", "healed"]},
+        }],
+        "assumptions": [
+            "closed system of two replicas inside one interpreter, each a real BaseStore with replication enabled over stub pubsub / direct channel and its own block store (blocks of the connected peer are fetchable)",
+            "fault plan (symbolic): STEPS steps, each a write on a or b whose announcement (the payload the real handleEventWrite published on the topic) is delivered to the other side or lost, or a restart of a (Close, fresh store over the same cache and blocks, real Load)",
+            "final phase: writes stop; each side observes the other joining its topic (EventPubSubJoin on the watcher channel); the payload each real exchangeHeads sends on the direct channel is decoded and handed to the other store's Sync, as baseorbitdb's handler does; run to quiescence",
+            "oracle: both replicas hold every acknowledged write and list identical ordered logs",
+        ],
+        "outside": ["more than two replicas", "duplicated / reordered announcements (delivery is idempotent and order-insensitive by C01)", "liveness of real pubsub / bitswap: the claim is 'given the join notifications and fetchable blocks, one exchange suffices'", "composition to >2 replicas is a paper argument"],
+    },
     "C03": {
         "groups": [{
             "pkg": BS, "funcs": ["VerifC03Forged", "VerifC03LocalWrite"],
